@@ -8,37 +8,57 @@
 From Cicada Require Import Base.Chars Model.Vars Model.VarsSpec Proofs.VarsProofs.
 Local Open Scope N_scope.
 
+(** [fx] says which of the proposed repairs (notes/C09-fix-3..5.patch) the code contains; the
+    tree as it is contains none of them.  The theorems hold for every setting. *)
+Definition fx_tree : fixes := mkfx false false false.
+
 (** The abstraction function relates every state whose environment has no duplicate names. *)
 Theorem C09_abs : forall c, NoDup (map fst (envp c)) -> R c (abs c).
 Proof. exact R_abs. Qed.
 
 (** Every operation outside the known classes commutes with the abstraction and produces
-    the specified observation, for every file system. *)
-Theorem C09_step : forall w c a o, R c a -> wf_op o = true -> known w a o = None ->
-  R (fst (step w c (render o))) (fst (spec_step w a o)) /\
-  obs_ok (snd (spec_step w a o)) (snd (step w c (render o))).
+    the specified observation, for every file system (this now includes NAME=v prog with NAME
+    exported, and cd without argument when $HOME does not exist). *)
+Theorem C09_step : forall fx w c a o, R c a -> wf_op o = true -> known fx a o = None ->
+  R (fst (step fx w c (render o))) (fst (spec_step fx w a o)) /\
+  obs_ok (snd (spec_step fx w a o)) (snd (step fx w c (render o))).
 Proof. exact sim_step. Qed.
 
 (** Full statement: for every history of well-formed operations, what expansions and children
     observe is what the abstract store prescribes. *)
 Definition C09_full : Prop := forall w c ops,
   NoDup (map fst (envp c)) -> forallb wf_op ops = true ->
-  Forall2 obs_ok (snd (spec_hist w (abs c) ops)) (snd (run_hist w c (map render ops))).
+  Forall2 obs_ok (snd (spec_hist fx_tree w (abs c) ops)) (snd (run_hist fx_tree w c (map render ops))).
 
 (** Unbounded partial statement: histories of any length that never enter a known class. *)
-Theorem C09_partial : forall w c ops,
-  NoDup (map fst (envp c)) -> forallb wf_op ops = true -> known_hist w (abs c) ops = false ->
-  Forall2 obs_ok (snd (spec_hist w (abs c) ops)) (snd (run_hist w c (map render ops))) /\
-  R (fst (run_hist w c (map render ops))) (fst (spec_hist w (abs c) ops)).
+Theorem C09_partial : forall fx w c ops,
+  NoDup (map fst (envp c)) -> forallb wf_op ops = true -> known_hist fx w (abs c) ops = false ->
+  Forall2 obs_ok (snd (spec_hist fx w (abs c) ops)) (snd (run_hist fx w c (map render ops))) /\
+  R (fst (run_hist fx w c (map render ops))) (fst (spec_hist fx w (abs c) ops)).
 Proof. exact partial_from_abs. Qed.
 
-Check C09_step : forall w c a o, R c a -> wf_op o = true -> known w a o = None ->
-  R (fst (step w c (render o))) (fst (spec_step w a o)) /\
-  obs_ok (snd (spec_step w a o)) (snd (step w c (render o))).
-Check C09_partial : forall w c ops,
-  NoDup (map fst (envp c)) -> forallb wf_op ops = true -> known_hist w (abs c) ops = false ->
-  Forall2 obs_ok (snd (spec_hist w (abs c) ops)) (snd (run_hist w c (map render ops))) /\
-  R (fst (run_hist w c (map render ops))) (fst (spec_hist w (abs c) ops)).
+(** $PWD is the working directory for as long as no operation names PWD. *)
+Theorem C09_pwd : forall fx w c ops,
+  NoDup (map fst (envp c)) -> forallb wf_op ops = true -> known_hist fx w (abs c) ops = false ->
+  aget (envp c) s_PWD = Some (cwd c) -> forallb (fun o => negb (touches s_PWD o)) ops = true ->
+  let c' := fst (run_hist fx w c (map render ops)) in expand_lookup c' s_PWD = Some (cwd c').
+Proof. exact pwd_follows_cwd. Qed.
+
+(** With the three proposed repairs the full statement holds (from every state in which an
+    exported IFS has no shell-local IFS behind it, e.g. a fresh shell). *)
+Theorem C09_full_after_repairs : forall w c ops,
+  NoDup (map fst (envp c)) -> (aget (envp c) s_IFS <> None -> aget (locals c) s_IFS = None) ->
+  forallb wf_op ops = true ->
+  Forall2 obs_ok (snd (spec_hist fx_all w (abs c) ops)) (snd (run_hist fx_all w c (map render ops))).
+Proof. exact full_after_repairs. Qed.
+
+Check C09_step : forall fx w c a o, R c a -> wf_op o = true -> known fx a o = None ->
+  R (fst (step fx w c (render o))) (fst (spec_step fx w a o)) /\
+  obs_ok (snd (spec_step fx w a o)) (snd (step fx w c (render o))).
+Check C09_partial : forall fx w c ops,
+  NoDup (map fst (envp c)) -> forallb wf_op ops = true -> known_hist fx w (abs c) ops = false ->
+  Forall2 obs_ok (snd (spec_hist fx w (abs c) ops)) (snd (run_hist fx w c (map render ops))) /\
+  R (fst (run_hist fx w c (map render ops))) (fst (spec_hist fx w (abs c) ops)).
 
 (* ---- refutations: one concrete history per known class *)
 Definition w_none : world := mkworld (fun _ => false) (fun _ => None) (fun _ => false) (fun v => v).
@@ -47,27 +67,22 @@ Definition c_root : st := mkst [] [] [c_slash] [].
 Definition nA : str := [65]. Definition nB : str := [66].
 Definition hp : str := [47; 104; 112].
 
-(** export A=1; A=2 /hp  -- the child finds A=1 and A=2, in that order *)
-Definition ops_prefix : list op :=
-  [Export [mkasg nA [49] QBare]; Prefixed [mkasg nA [50] QBare] hp []].
-Theorem C09_refuted : ~ C09_full.
-Proof.
-  intro H. specialize (H w_none c_root ops_prefix (NoDup_nil _) eq_refl).
-  pose proof (Forall2_nth_ok _ _ _ H 1%nat (SStatus true) OPanic ltac:(vm_compute; auto)) as H1.
-  vm_compute in H1. destruct H1 as (_ & _ & H1). specialize (H1 nA). vm_compute in H1. discriminate.
-Qed.
-
 (** IFS=':'; export IFS=','; read A B <<< 'x:y,z'; $A  -- read still splits at the colon *)
 Definition ops_ifs : list op :=
   [Assign [mkasg s_IFS [58] QSq]; Export [mkasg s_IFS [44] QSq];
    Read [] [nA; nB] [120; 58; 121; 44; 122]; Ref nA].
 Theorem C09_refuted_ifs_shadowed :
   forallb wf_op ops_ifs = true /\
-  ~ Forall2 obs_ok (snd (spec_hist w_none (abs c_root) ops_ifs)) (snd (run_hist w_none c_root (map render ops_ifs))).
+  ~ Forall2 obs_ok (snd (spec_hist fx_tree w_none (abs c_root) ops_ifs)) (snd (run_hist fx_tree w_none c_root (map render ops_ifs))).
 Proof.
   split; [reflexivity|]. intro H.
   pose proof (Forall2_nth_ok _ _ _ H 3%nat (SStatus true) OPanic ltac:(vm_compute; auto)) as H1.
   vm_compute in H1. discriminate.
+Qed.
+
+Theorem C09_refuted : ~ C09_full.
+Proof.
+  intro H. apply (proj2 C09_refuted_ifs_shadowed). apply (H w_none c_root ops_ifs (NoDup_nil _) eq_refl).
 Qed.
 
 (** IFS=':' read A B <<< 'x:y:z'; $B  -- B is rebuilt with a blank *)
@@ -75,52 +90,51 @@ Definition ops_rejoin : list op :=
   [Read [mkasg s_IFS [58] QSq] [nA; nB] [120; 58; 121; 58; 122]; Ref nB].
 Theorem C09_refuted_read_rejoined :
   forallb wf_op ops_rejoin = true /\
-  ~ Forall2 obs_ok (snd (spec_hist w_none (abs c_root) ops_rejoin)) (snd (run_hist w_none c_root (map render ops_rejoin))).
+  ~ Forall2 obs_ok (snd (spec_hist fx_tree w_none (abs c_root) ops_rejoin)) (snd (run_hist fx_tree w_none c_root (map render ops_rejoin))).
 Proof.
   split; [reflexivity|]. intro H.
   pose proof (Forall2_nth_ok _ _ _ H 1%nat (SStatus true) OPanic ltac:(vm_compute; auto)) as H1.
   vm_compute in H1. discriminate.
 Qed.
 
-(** export HOME=/x (no such path); cd  -- the shell dies instead of failing *)
-Definition ops_cd_missing : list op := [Export [mkasg s_HOME [47; 120] QBare]; Cd None].
-Theorem C09_refuted_cd_home_missing :
-  forallb wf_op ops_cd_missing = true /\
-  snd (run_hist w_none c_root (map render ops_cd_missing)) = [OStatus true; OPanic] /\
-  snd (spec_hist w_none (abs c_root) ops_cd_missing) = [SStatus true; SStatus false].
-Proof. vm_compute. repeat split. Qed.
-
 (** cd with HOME not in the environment: specified to fail, the shell reports success *)
 Definition ops_cd_nohome : list op := [Cd None].
 Theorem C09_refuted_cd_home_not_exported :
   forallb wf_op ops_cd_nohome = true /\
-  snd (run_hist w_all c_root (map render ops_cd_nohome)) = [OStatus true] /\
-  snd (spec_hist w_all (abs c_root) ops_cd_nohome) = [SStatus false].
+  snd (run_hist fx_tree w_all c_root (map render ops_cd_nohome)) = [OStatus true] /\
+  snd (spec_hist fx_tree w_all (abs c_root) ops_cd_nohome) = [SStatus false].
 Proof. vm_compute. repeat split. Qed.
 
 (** Non-vacuity: a history through every kind of operation that meets the hypotheses of
-    C09_partial, with the observations it produces.
-      B='x y'; export A="p:q"; C=2 /hp; A=3; read B C <<< 'u v w'; unset A; cd /d; cd -; $B $C $PWD *)
+    C09_partial and C09_pwd, with the observations it produces.
+      B='x y'; export A="p:q"; A=2 /hp; A=3; read B C <<< 'u v w'; unset A; cd /d; cd -; export HOME=/nope; cd;
+      $B $C $PWD $A
+    (A=2 /hp with A exported: the child finds exactly A=2; cd with a missing HOME: status 1.) *)
 Definition w_d : world :=
   mkworld (fun p => str_eqb p [47; 100] || str_eqb p [47]) (fun p => Some p) (fun _ => true) (fun v => v).
+Definition c_start : st := mkst [] [(s_PWD, [47])] [47] [].
 Definition ops_ok : list op :=
   [Assign [mkasg nB [120; 32; 121] QSq]; Export [mkasg nA [112; 58; 113] QDq];
-   Prefixed [mkasg [67] [50] QBare] hp []; Assign [mkasg nA [51] QBare];
+   Prefixed [mkasg nA [50] QBare] hp []; Assign [mkasg nA [51] QBare];
    Read [] [nB; [67]] [117; 32; 118; 32; 119]; Unset nA; Cd (Some [47; 100]); Cd (Some s_dash);
+   Export [mkasg s_HOME [47; 110; 111; 112; 101] QBare]; Cd None;
    Ref nB; Ref [67]; Ref s_PWD; Ref nA].
 Example C09_nonvacuous :
-  forallb wf_op ops_ok = true /\ known_hist w_d (abs c_root) ops_ok = false /\
-  (let outs := snd (run_hist w_d c_root (map render ops_ok)) in
-   nth 2 outs OPanic = OChild [hp] [(nA, [112; 58; 113]); ([67], [50])] [47] /\
-   skipn 6 outs = [OStatus true; OStatus true; OVal (Some [117]); OVal (Some [118; 32; 119]);
-                   OVal (Some [47]); OVal None]).
+  forallb wf_op ops_ok = true /\ known_hist fx_tree w_d (abs c_start) ops_ok = false /\
+  aget (envp c_start) s_PWD = Some (cwd c_start) /\
+  forallb (fun o => negb (touches s_PWD o)) ops_ok = true /\
+  (let outs := snd (run_hist fx_tree w_d c_start (map render ops_ok)) in
+   nth 2 outs OPanic = OChild [hp] [(s_PWD, [47]); (nA, [50])] [47] /\
+   skipn 6 outs = [OStatus true; OStatus true; OStatus true; OStatus false; OVal (Some [117]);
+                   OVal (Some [118; 32; 119]); OVal (Some [47]); OVal None]).
 Proof. vm_compute. repeat split. Qed.
 
 Print Assumptions C09_abs.
 Print Assumptions C09_step.
 Print Assumptions C09_partial.
+Print Assumptions C09_pwd.
+Print Assumptions C09_full_after_repairs.
 Print Assumptions C09_refuted.
 Print Assumptions C09_refuted_ifs_shadowed.
 Print Assumptions C09_refuted_read_rejoined.
-Print Assumptions C09_refuted_cd_home_missing.
 Print Assumptions C09_refuted_cd_home_not_exported.
